@@ -19,6 +19,7 @@ import (
 	"math"
 	"os"
 	"strconv"
+	"sync"
 	"unicode/utf8"
 
 	"github.com/btcsuite/btcd/btcec/v2"
@@ -54,7 +55,12 @@ type c01Case struct {
 	// a sequence case: the events of Seq are handed to the real code one after the other,
 	// in this order, in one process; R and the observation fields below are then unused
 	Seq []c01Case `json:"seq,omitempty"`
-	R   c01Recipe `json:"r"`
+	// Conc (sequence cases): after the events have been verified one after the other, they are verified again
+	// all at the same time, 300 times each, by one goroutine per event (as a relay does for its connections); an
+	// event's recorded verdict is then the first one that differed from its sequential verdict, if any did
+	Conc bool      `json:"conc,omitempty"`
+	R    c01Recipe `json:"r"`
+	ev   *mocrelay.Event
 	// the event that was checked, and what was observed
 	E      c01Event `json:"e"`
 	Ser    string   `json:"ser"`    // Serialize() (hex)
@@ -409,6 +415,7 @@ func c01Run(c *c01Case) {
 		mtags[i] = mocrelay.Tag(append([]string{}, t...))
 	}
 	ev := &mocrelay.Event{ID: id, Pubkey: pk, CreatedAt: ts, Kind: kind, Tags: mtags, Content: content, Sig: sig}
+	c.ev = ev
 
 	// (a) Serialize
 	func() {
@@ -772,6 +779,7 @@ func c01SeqGen(r *common.Rand) c01Case {
 		}
 		c.Seq = append(c.Seq, c01Case{R: rc})
 	}
+	c.Conc = r.Chance(30)
 	return c
 }
 
@@ -812,6 +820,56 @@ func c01RunCase(c *c01Case) {
 		}
 		c01Run(&c.Seq[i])
 	}
+	if c.Conc {
+		c01VerifyTogether(c.Seq)
+	}
+}
+
+func c01VerdictOf(ev *mocrelay.Event) (res int) {
+	defer func() {
+		if recover() != nil {
+			res = 3
+		}
+	}()
+	ok, err := ev.Verify()
+	switch {
+	case err != nil:
+		return 2
+	case ok:
+		return 1
+	}
+	return 0
+}
+
+func c01VerifyTogether(seq []c01Case) {
+	start := make(chan struct{})
+	var wg sync.WaitGroup
+	diff := make([]int, len(seq))
+	for i := range seq {
+		diff[i] = -1
+		if seq[i].ev == nil || seq[i].Res == 3 {
+			continue
+		}
+		wg.Add(1)
+		go func(i int) {
+			defer wg.Done()
+			<-start
+			for k := 0; k < 300; k++ {
+				cp := *seq[i].ev
+				if r := c01VerdictOf(&cp); r != seq[i].Res {
+					diff[i] = r
+					return
+				}
+			}
+		}(i)
+	}
+	close(start)
+	wg.Wait()
+	for i := range seq {
+		if diff[i] >= 0 {
+			seq[i].Res = diff[i]
+		}
+	}
 }
 
 func init() {
@@ -822,7 +880,7 @@ func init() {
 				if err := json.Unmarshal(raw, &c); err != nil {
 					common.Fatalf("bad replay case: %v", err)
 				}
-				c = c01Case{R: c.R, Seq: c.Seq}
+				c = c01Case{R: c.R, Seq: c.Seq, Conc: c.Conc}
 				if c.R.Tags == nil {
 					c.R.Tags = [][]string{}
 				}
